@@ -439,6 +439,19 @@ class EscapeAnalysis:
         recv = norm(sub.value)
         from .cfg import expr_guards
         allfacts = list(facts) + list(expr_guards(root, sub))
+        # not (a or b) gives not a, not b ; (a and b) gives a, b
+        work = list(allfacts)
+        while work:
+            t, pol = work.pop()
+            if isinstance(t, ast.BoolOp):
+                if (isinstance(t.op, ast.Or) and not pol) or \
+                        (isinstance(t.op, ast.And) and pol):
+                    for v in t.values:
+                        allfacts.append((v, pol))
+                        work.append((v, pol))
+            elif isinstance(t, ast.UnaryOp) and isinstance(t.op, ast.Not):
+                allfacts.append((t.operand, not pol))
+                work.append((t.operand, not pol))
         # `if 'A' in d or 'B' in d: try: d['A'] except KeyError: d['B']`
         for t, pol in allfacts:
             if pol and isinstance(t, ast.BoolOp) and isinstance(t.op, ast.Or):
@@ -576,6 +589,17 @@ class EscapeAnalysis:
                         v.func.attr in ('match', 'search', 'fullmatch') and \
                         not (isinstance(v.func.value, ast.Name) and
                              v.func.value.id in ('self',)):
+                    out[n.targets[0].id] = n
+                elif isinstance(v, ast.Call) and \
+                        isinstance(v.func, ast.Attribute) and \
+                        v.func.attr == 'get' and \
+                        norm(v.func.value) in getattr(
+                            self, 'none_get_receivers', ()) and \
+                        (len(v.args) == 1 or (
+                            len(v.args) == 2 and
+                            isinstance(v.args[1], ast.Constant) and
+                            v.args[1].value is None)):
+                    # mapping.get(key) without a default: possibly None
                     out[n.targets[0].id] = n
                 else:
                     other.add(n.targets[0].id)
